@@ -35,9 +35,46 @@ def large_backpressure(chk, count):
     return recs
 
 
+def term_midtransfer(chk, count):
+    ''' terminate() on either side while a multi-segment transfer is between two of its segments: the transfer in
+    progress still reaches the peer (full socket writes, so the recorded C09 finding about a partially written
+    buffer is not in play). '''
+    recs = []
+    for idx in range(count):
+        rng = chk.rng
+        seg = rng.choice([1, 7, 64])
+        runner = TC.Runner(cfg_a=dict(segment_size_tx_initial=seg), cfg_b=dict(segment_size_tx_initial=rng.choice([3, 64])))
+        runner.apply(('start', 'A'))
+        runner.apply(('start', 'B'))
+        TC.drain(runner)
+        runner.apply(('send', 'A', ('gen', rng.randrange(1 << 30), seg * rng.choice([4, 9, 40]) + rng.choice([0, 1]))))
+        if rng.random() < 0.5:
+            runner.apply(('send', 'A', ('gen', rng.randrange(1 << 30), rng.choice([0, 1, 50]))))
+        if rng.random() < 0.5:
+            runner.apply(('send', 'B', ('gen', rng.randrange(1 << 30), rng.choice([5, 200]))))
+        nread = rng.choice([1, 5, 1 << 30])
+        for _ in range(rng.randrange(2, 40)):
+            ena = TC.enabled_ops(runner, rng)
+            if not ena:
+                break
+            pick = rng.choice(ena)
+            if pick[0] == 'txpump':
+                runner.apply(('txpump', pick[1], pick[2], 1 << 30))
+            elif pick[0] == 'rxpump':
+                runner.apply(('rxpump', pick[1], nread))
+            else:
+                runner.apply(('pq', pick[1]))
+        who = ('A', 'B', 'AB')[idx % 3]
+        for e in who:
+            runner.apply(('term', e, 0))
+        TC.drain(runner, accept=1 << 30, nread=nread)
+        recs.append(TS.finish(runner, 'term-midtransfer', dict(drained=False, started_complete=True, who=who)))
+    return recs
+
+
 def search(chk):
     ''' More of the expensive schedule classes, oracle only. '''
-    recs = large_backpressure(chk, 60)
+    recs = large_backpressure(chk, 60) + term_midtransfer(chk, 200)
     for idx in range(200):
         runner = TS.gen_coop(chk.rng, nops=chk.rng.choice([90, 160]), full_io=(idx % 4 == 0))
         TC.drain(runner)
@@ -65,6 +102,7 @@ def build(chk):
         TC.drain(runner, accept=chk.rng.choice([1, 5, 1 << 30]), nread=chk.rng.choice([1, 4, 1 << 30]))
         recs.append(TS.finish(runner, 'boundary', dict(drained=True)))
     recs += large_backpressure(chk, 3 if chk.quick() else 40)
+    recs += term_midtransfer(chk, 12 if chk.quick() else 150)
     return recs
 
 
@@ -80,7 +118,7 @@ def evaluate(chk, recs):
         chk.case(ident=json.dumps(rec.replay_obj(), sort_keys=True), nontrivial=(nsend > 0 and nseg > 0),
                  sample=dict(cfg_a=rec.runner.cfg_a, cfg_b=rec.runner.cfg_b, ops=len(rec.runner.applied),
                              bundles=[len(q) for e in 'AB' for q in rec.queued[e]], segments=nseg))
-        for (sig, what) in TS.oracle_c01(rec, quiescent_complete=rec.meta.get('drained', False)):
+        for (sig, what) in TS.oracle_c01(rec, quiescent_complete=rec.meta.get('drained', False), started_complete=rec.meta.get('started_complete', False)):
             chk.fail(sig, what, rec.replay_obj())
 
 
@@ -89,6 +127,6 @@ if __name__ == '__main__':
                  rule='two real ContactHandler endpoints over fake sockets; random interleavings of both event loops, '
                       'reads/writes of 1,2,3,7,64 or all octets, user sends at random positions, segment sizes 1..102400 and MRUs 1..10MiB; '
                       'half the runs are drained to quiescence by a fair scheduler (then every queued bundle must have arrived); '
-                      'fixed boundary runs with zero-length, one-octet and many-segment bundles; '
+                      'fixed boundary runs with zero-length, one-octet and many-segment bundles; terminate() by either or both sides while a multi-segment transfer is in progress (that transfer must still arrive); '
                       'non-trivial = at least one bundle queued and one segment on the wire; distinct by the full op list',
                  search=search)
